@@ -199,6 +199,12 @@ impl TestRunnerAdapter {
         self.runner.clone()
     }
 
+    /// Verification hook: the running state as the machine thread sees it
+    #[cfg(mos_verif)]
+    pub fn verif_state(&self) -> Arc<Mutex<MachineRunningState>> {
+        self.state.clone()
+    }
+
     fn update_state(&mut self, new: MachineRunningState) -> MosResult<()> {
         #[cfg(mos_verif)]
         crate::verif_hooks::point_mutex("s:update_state", &self.state);
